@@ -137,6 +137,11 @@ class SyncInterpreter(BaseInterpreter[TContext, TEvent]):
         #: Chain depth of the event being processed, and the thread doing it.
         self._chain_depth: int = 0
         self._drain_thread: Optional[int] = None
+        #: Held by the one thread that is entering the initial configuration
+        #: or draining the queue. It is only ever TRIED, never waited for, so
+        #: it cannot deadlock a parent and a child actor that send to each
+        #: other from their own threads.
+        self._drain_lock = threading.Lock()
         self._after_threads: Dict[str, threading.Thread] = {}
         self._after_events: Dict[str, threading.Event] = {}
         #: Cancellation flags for pending delayed sends, released by `stop()`.
@@ -186,6 +191,12 @@ class SyncInterpreter(BaseInterpreter[TContext, TEvent]):
             )
             return self
 
+        # 🔒 Timer threads, actors and other callers may `send()` as soon as
+        #    the status reads "running"; holding the drain lock makes them
+        #    leave their event in the queue instead of draining it
+        #    concurrently with the initial entry below.
+        if not self._drain_lock.acquire(blocking=False):
+            return self  # another thread is already starting this interpreter
         logger.info("🏁 Starting sync interpreter '%s'...", self.id)
         self.status = "running"
 
@@ -224,6 +235,8 @@ class SyncInterpreter(BaseInterpreter[TContext, TEvent]):
             self._process_transient_transitions()
         finally:
             self._is_processing = False
+            self._drain_thread = None
+            self._drain_lock.release()
         # 📬 Drain anything an entry action raised during that descent.
         self._process_event_queue()
 
@@ -364,9 +377,29 @@ class SyncInterpreter(BaseInterpreter[TContext, TEvent]):
         If event processing is already underway, this method returns immediately
         to prevent re-entrant execution.
         """
-        if self._is_processing:
+        # 🔁 Re-entrant call from the draining thread itself (an action
+        #    raised or sent an event): the drain already under way picks it up.
+        if self._is_processing and self._drain_thread == threading.get_ident():
             return
+        while True:
+            # 🔒 One drainer at a time. `_is_processing` alone is a plain
+            #    flag: a timer or actor thread pre-empted around it drained
+            #    concurrently with the caller's thread, or left its event
+            #    stranded when it arrived between the other thread's last
+            #    queue check and the reset of the flag.
+            if not self._drain_lock.acquire(blocking=False):
+                # The thread holding the lock re-checks the queue after
+                # releasing it (below), so the event is not lost.
+                return
+            try:
+                self._drain_queue_locked()
+            finally:
+                self._drain_lock.release()
+            if not self._event_queue or self.status != "running":
+                return
 
+    def _drain_queue_locked(self) -> None:
+        """Drains the queue; the caller holds `_drain_lock`."""
         self._is_processing = True
         self._drain_thread = threading.get_ident()
         # 🛟 Bound the self-raised CHAIN, not the drain. The `raise` built-in
@@ -405,6 +438,7 @@ class SyncInterpreter(BaseInterpreter[TContext, TEvent]):
         finally:
             self._is_processing = False
             self._chain_depth = 0
+            self._drain_thread = None
             logger.debug("🎉 Event processing cycle completed. Queue empty.")
 
     # -------------------------------------------------------------------------
